@@ -20,6 +20,8 @@ use std::collections::{BTreeMap, BTreeSet};
 pub struct RevAuto {
 	pub validated: BTreeMap<u64, Txid>,
 	pub min_released: Option<u64>,
+	/// simulator step at which each secret was first released
+	pub released_at: BTreeMap<u64, u64>,
 	pub cp_last_signed: Option<u64>,
 	pub cp_revoked: BTreeSet<u64>,
 	pub funding: Option<bitcoin::OutPoint>,
@@ -575,6 +577,8 @@ impl World {
 					let a = self.oracle.rev.entry((n, keys_id)).or_default();
 					let has_newer = a.validated.contains_key(&(idx - 1));
 					let regress = a.min_released.map_or(false, |r| idx > r);
+					let st = self.step;
+					a.released_at.entry(idx).or_insert(st);
 					a.min_released = Some(a.min_released.map_or(idx, |r| r.min(idx)));
 					if !has_newer {
 						self.violate(
@@ -926,7 +930,14 @@ impl World {
 			self.violate("C04", "C04-3 PaymentClaimed without claim_funds", msg);
 		}
 		if amount < p.total_msat {
-			let msg = format!("node {} pay {}: claimed {} < total {}", n, pay, amount, p.total_msat);
+			let loaded = self.nodes[n].disk.lock().unwrap().loaded_generation;
+			let replayed = self.nodes[n].incarnation > 0 && p.claim_gen.map_or(false, |g| g + 1 > loaded);
+			let ctx = if replayed && p.paths.len() > 1 {
+				" [multi-part payment whose claim was replayed from a ChannelMonitor after a restart from a ChannelManager snapshot older than the claim]"
+			} else {
+				""
+			};
+			let msg = format!("node {} pay {}: claimed {} < total {}{}", n, pay, amount, p.total_msat, ctx);
 			self.violate("C04", "C04-3 PaymentClaimed for less than the payment", msg);
 		}
 	}
@@ -1016,17 +1027,33 @@ impl World {
 			if let Some(rel) = a.min_released {
 				for (num, t) in a.validated.iter() {
 					if *t == txid && *num >= rel {
-						revoked = Some((*num, rel));
+						revoked = Some((*num, rel, a.released_at.get(num).cloned()));
 					}
 				}
 			}
 		}
-		if let Some((num, rel)) = revoked {
-			self.violate(
-				"C05",
-				"C05-2 revoked holder commitment broadcast",
-				format!("node {} broadcast its commitment {} ({}) after revoking down to {}", n, num, txid, rel),
-			);
+		if let Some((num, rel, released_at)) = revoked {
+			let handed = self.nodes[n].broadcaster.first_seen.lock().unwrap().get(&txid).cloned();
+			let before = match (handed, released_at) {
+				(Some(h), Some(r)) => h < r,
+				_ => false,
+			};
+			if before {
+				self.violate(
+					"C05",
+					"C05-2 holder commitment revoked after it had been broadcast",
+					format!(
+						"node {} handed its commitment {} ({}) to the broadcaster at step {} and released that commitment's revocation secret at step {} [the ChannelForceClosed monitor update was not durable when the node crashed; the restarted node resumed the channel]",
+						n, num, txid, handed.unwrap_or(0), released_at.unwrap_or(0)
+					),
+				);
+			} else {
+				self.violate(
+					"C05",
+					"C05-2 revoked holder commitment broadcast",
+					format!("node {} broadcast its commitment {} ({}) after revoking down to {}", n, num, txid, rel),
+				);
+			}
 		}
 		match r {
 			Admit::ScriptFail(e) => self.violate(
